@@ -148,4 +148,10 @@ def hessian(poly: PolyLike) -> ndpoly:
                      [0, 0, 2*q0]]])
 
     """
-    return gradient(gradient(poly))
+    poly = numpoly.aspolynomial(poly)
+    grad = gradient(poly)
+    # differentiate with respect to the indeterminants of `poly` itself; the
+    # gradient may have lost names that became unused
+    grad, _ = numpoly.align_indeterminants(grad, poly.indeterminants)
+    polys = [derivative(grad, diffvar)[numpy.newaxis] for diffvar in poly.names]
+    return numpoly.concatenate(polys, axis=0)
